@@ -5,7 +5,7 @@
 
 /* registry of heap objects (prelude VERIF_KINDFOLD) */
 sexp verif_reg[24]; int verif_nreg;
-static inline void verif_register(void *p) { if (verif_nreg < 24) verif_reg[verif_nreg++] = (sexp)p; }
+static inline void verif_register(void *p) { __CPROVER_assert(verif_nreg < 24, "harness.bound: object registry sufficed"); if (verif_nreg < 24) verif_reg[verif_nreg++] = (sexp)p; }
 
 #ifndef VM_STACK_SLOTS
 #define VM_STACK_SLOTS 96
@@ -34,17 +34,21 @@ struct vm_globals_t vm_globals_obj;
 struct vm_pair_t { struct vm_hdr h; sexp car, cdr, source; };
 struct vm_exc_t { struct vm_hdr h; sexp kind, message, irritants, procedure, source, stack_trace; };
 struct vm_flo_t { struct vm_hdr h; double value; };
-struct vm_pair_t vm_pair0, vm_pair1, vm_pair2, vm_pair3, vm_pair4, vm_pair5;
+struct vm_pair_t vm_pair0, vm_pair1, vm_pair2, vm_pair3, vm_pair4, vm_pair5, vm_pair6, vm_pair7, vm_pair8, vm_pair9, vm_pair10, vm_pair11;
+#ifndef VM_NPAIRS
+#define VM_NPAIRS 6      /* pool size used by a harness (up to 12) */
+#endif
 struct vm_exc_t vm_exc0, vm_exc1, vm_exc2, vm_exc3;
 struct vm_flo_t vm_flo0, vm_flo1, vm_flo2, vm_flo3;
 int vm_npairs, vm_nexcs, vm_nflos;
-#define VM_PAIR(k) ((k) == 0 ? &vm_pair0 : (k) == 1 ? &vm_pair1 : (k) == 2 ? &vm_pair2 : (k) == 3 ? &vm_pair3 : (k) == 4 ? &vm_pair4 : &vm_pair5)
+#define VM_PAIR(k) ((k) == 0 ? &vm_pair0 : (k) == 1 ? &vm_pair1 : (k) == 2 ? &vm_pair2 : (k) == 3 ? &vm_pair3 : (k) == 4 ? &vm_pair4 : (k) == 5 ? &vm_pair5 : \
+                    (k) == 6 ? &vm_pair6 : (k) == 7 ? &vm_pair7 : (k) == 8 ? &vm_pair8 : (k) == 9 ? &vm_pair9 : (k) == 10 ? &vm_pair10 : &vm_pair11)
 #define VM_EXC(k) ((k) == 0 ? &vm_exc0 : (k) == 1 ? &vm_exc1 : (k) == 2 ? &vm_exc2 : &vm_exc3)
 #define VM_FLO(k) ((k) == 0 ? &vm_flo0 : (k) == 1 ? &vm_flo1 : (k) == 2 ? &vm_flo2 : &vm_flo3)
 
 static inline sexp vm_new_pair(sexp a, sexp d) {
-  __CPROVER_assert(vm_npairs < 6, "harness.bound: pair pool sufficed");
-  __CPROVER_assume(vm_npairs < 6);
+  __CPROVER_assert(vm_npairs < VM_NPAIRS, "harness.bound: pair pool sufficed");
+  __CPROVER_assume(vm_npairs < VM_NPAIRS);
   struct vm_pair_t *p = VM_PAIR(vm_npairs); vm_npairs++;
   p->h.tag = SEXP_PAIR; p->car = a; p->cdr = d; p->source = SEXP_FALSE;
   verif_register(p);
